@@ -383,12 +383,15 @@ pub struct RefOutcome {
     pub max_depth: usize,
     pub fiber_switches: u32,
     pub distinct_ranges: usize,
+    /// two distinct range objects were compared during the run
+    pub range_identity_observed: bool,
     pub steps: u64,
 }
 
 /// Runs a whole program (main body plus importable modules) on a fresh reference interpreter.
 pub fn run_program(p: &Program, cfg: &RefCfg) -> RefOutcome {
     let (sh, ctx, main) = new_interp(cfg, &p.modules);
+    crate::rv::RANGE_IDENTITY_OBSERVED.with(|f| f.set(false));
     let end = run_snippet(&ctx, &main, &p.main);
     let o = RefOutcome {
         out: std::mem::take(&mut *sh.out.borrow_mut()),
@@ -397,6 +400,7 @@ pub fn run_program(p: &Program, cfg: &RefCfg) -> RefOutcome {
         max_depth: sh.max_depth.get(),
         fiber_switches: sh.fiber_switches.get(),
         distinct_ranges: sh.ranges.borrow().len(),
+        range_identity_observed: crate::rv::RANGE_IDENTITY_OBSERVED.with(|f| f.get()),
         steps: sh.steps.get(),
     };
     drop(ctx);
